@@ -150,6 +150,130 @@ conect_chunks = FunctionContract(
 CONTRACTS.append(conect_chunks)
 
 
+# ------------------------------------------------------------------ write_pdb_string: serial numbers, ATOM and TER records
+MolT, NodeT = TKey('MolT'), TKey('NodeT')
+AtomEv = TTuple(TInt, TInt, TStr, TStr, TInt, TStr, names=['kind', 'serial', 'atomname', 'resname', 'resid', 'chain'])   # kind 0 ATOM, 1 TER
+
+
+def setup_serials(cx):
+    eng = cx.eng
+    from pyvc.values import IterV
+    from pyvc.builtins import _int, list_append
+    mols = cx.val('molecules', TSeq(MolT))
+    cx.spec_env['mols'] = mols
+    nodes_of = cx.uf('nodes_of', [MolT], TSeq(NodeT))               # molecule.sorted_nodes
+    attr_s = cx.uf('attr_s', [MolT, NodeT, TStr], TStr)              # get_not_none(node, <name>, default) for text attributes
+    attr_i = cx.uf('attr_i', [MolT, NodeT, TStr], TInt)              # ... for numbers
+    m_ = z3.Const('m', MolT.sort())
+    cx.assume(z3.ForAll([m_], TSeq(NodeT).len(nodes_of(m_)) >= 0))
+    EV = cx.heap('EV', Box(TSeq(AtomEv)))
+    eng.attr_hooks[('MolT', 'sorted_nodes')] = lambda e, m: SV(TSeq(NodeT), nodes_of(to_z3(m, MolT)))
+
+    def node_view(e, m):
+        def item(e2, n):
+            o = Obj('atomdict', mol=m, node=n)
+            pos = Obj('position')
+            pos.attrs['__mul__'] = Builtin(lambda e3, f: (e3.fresh_val(TReal, 'x'), e3.fresh_val(TReal, 'y'), e3.fresh_val(TReal, 'z')), '*')
+            o.attrs['__getitem__'] = Builtin(lambda e3, k: pos if k == 'position' else (_ for _ in ()).throw(EngineError('node[%r]' % (k,))), 'node[]')
+            return o
+        return Obj('NodeView', __getitem__=Builtin(item, 'molecule.nodes[]'))
+    eng.attr_hooks[('MolT', 'nodes')] = node_view
+
+    def get_not_none(e, node, attr, default):
+        m, n = to_z3(node.attrs['mol'], MolT), to_z3(node.attrs['node'], NodeT)
+        if isinstance(default, str):
+            return SV(TStr, attr_s(m, n, z3.StringVal(attr)))
+        return SV(TInt, attr_i(m, n, z3.StringVal(attr)))
+    cx.spec_env['get_not_none'] = Builtin(get_not_none, 'get_not_none')
+
+    def fmt(e, template, *vals):
+        if template.startswith('ATOM'):
+            return (0, vals[0], vals[1], vals[3], vals[5], vals[4])      # serial, atomname, resname, resid, chain
+        if template.startswith('TER'):
+            return (1, vals[0], '', vals[1], vals[3], vals[2])           # serial, resname, resid, chain
+        raise EngineError('formatter.format(%r...)' % template[:10])
+    formatter = Obj('formatter', format=Builtin(fmt, 'formatter.format'))
+    out = Obj('out', append=Builtin(lambda e, line: list_append(e, EV, line), 'out.append'))
+    system = Obj('System', molecules=mols)
+    # resname / chain / resid / insertion_code leak from the inner loop to the TER line; every molecule has an atom (required
+    # below), so they are always assigned before they are used - the arbitrary initial values stand for "unbound"
+    return dict(system=system, formatter=formatter, out=out, omit_charges=True, nan_missing_pos=cx.val('nan_missing_pos', TBool),
+                format_string='ATOM  {: >5dt} ...', resname=cx.val('resname0', TStr), chain=cx.val('chain0', TStr),
+                resid=cx.val('resid0', TInt), insertion_code=cx.val('icode0', TStr))
+
+
+SPEC_SER = {
+    'nat': "lambda m: len(nodes_of(mols[m]))",
+    'nd': "lambda m, q: nodes_of(mols[m])[q]",
+    # position in the output of atom q of molecule m: all atoms and TER lines of the earlier molecules come first
+    'at': "lambda m, q: NAT(mols, m) + m + q",
+    'is_atom': "lambda ev, m, q: ev.kind == 0 and ev.serial == at(m, q) + 1 and ev.atomname == attr_s(mols[m], nd(m, q), 'atomname') and "
+               "ev.resname == attr_s(mols[m], nd(m, q), 'resname') and ev.resid == attr_i(mols[m], nd(m, q), 'resid') and "
+               "ev.chain == attr_s(mols[m], nd(m, q), 'chain')",
+    'is_ter': "lambda ev, m: ev.kind == 1 and ev.serial == NAT(mols, m + 1) + m + 1 and "
+              "ev.resname == attr_s(mols[m], nd(m, nat(m) - 1), 'resname') and ev.resid == attr_i(mols[m], nd(m, nat(m) - 1), 'resid') and "
+              "ev.chain == attr_s(mols[m], nd(m, nat(m) - 1), 'chain')",
+}
+RECS_SER = [('NAT', [('ms', TSeq(MolT)), ('i', TInt)], TInt, "0 if i <= 0 else NAT(ms, i - 1) + len(nodes_of(ms[i - 1]))")]
+L_nat_nonneg = Lemma('L_nat_nonneg', [('ms', TSeq(MolT)), ('i', TInt)], spec_recs=RECS_SER, prop='C16', file=FP,
+                     requires=["i <= len(ms)", "forall(lambda k: implies(0 <= k and k < len(ms), len(nodes_of(ms[k])) >= 0))"],
+                     ensures=["NAT(ms, i) >= 0"], induction='i', ufs=[('nodes_of', [MolT], TSeq(NodeT))])
+# the block of molecule m in the output starts at lo(m) = NAT(m) + m: nat(m) ATOM records, then its TER record
+SPEC_SER['lo'] = "lambda m: NAT(mols, m) + m"
+SPEC_SER['block_ok'] = ("lambda m: lo(m) + nat(m) < len(EV) and "
+                        "forall(lambda p: implies(lo(m) <= p and p < lo(m) + nat(m), is_atom(EV[p], m, p - lo(m)))) and "
+                        "is_ter(EV[lo(m) + nat(m)], m) and "
+                        "forall(lambda q: implies(0 <= q and q < nat(m), (m, nd(m, q)) in nodeidx2atomid and "
+                        "   nodeidx2atomid[(m, nd(m, q))] == lo(m) + q + 1))")
+L_nat_mono = Lemma('L_nat_mono', [('ms', TSeq(MolT)), ('i', TInt), ('j', TInt)], spec_recs=RECS_SER, prop='C16', file=FP,
+                   requires=["0 <= i and i <= j and j <= len(ms)", "forall(lambda k: implies(0 <= k and k < len(ms), len(nodes_of(ms[k])) >= 0))"],
+                   ensures=["NAT(ms, i) <= NAT(ms, j)"], induction='j', ufs=[('nodes_of', [MolT], TSeq(NodeT))])
+SER_INV = ["forall(lambda m: implies(0 <= m and m < {M}, block_ok(m)))"]
+serials = FunctionContract(
+    FP, 'write_pdb_string', 'C16', short='write_pdb_string[ATOM and TER records]', setup=setup_serials, spec_defs=SPEC_SER,
+    spec_recs=RECS_SER, spec_env=dict(MolT=MolT, NodeT=NodeT), lemmas=[L_nat_nonneg, L_nat_mono],
+    region=dict(start="nodeidx2atomid = {}", end="if conect:"),
+    locals=dict(nodeidx2atomid=TMap(TTuple(TInt, NodeT), TInt)),
+    requires=["len(old(EV)) == 0",
+              # every molecule has at least one atom (the TER record repeats the residue of the molecule's last atom), and a
+              # molecule lists each of its atoms once
+              "forall(lambda m: implies(0 <= m and m < len(mols), nat(m) >= 1))",
+              "forall(lambda m, p, q: implies(0 <= m and m < len(mols) and 0 <= p and p < q and q < nat(m), nd(m, p) != nd(m, q)))"],
+    ensures=[
+        # every atom of every molecule, in order, with consecutive serial numbers; one TER record after each molecule, which
+        # takes a serial number of its own; the table used for the CONECT records maps each atom to its serial number
+        "len(EV) == NAT(mols, len(mols)) + len(mols)",
+        SER_INV[0].format(M='len(mols)'),
+    ],
+    modifies=['EV'],
+    ghost_at={'entry': "use_lemma('L_nat_nonneg', mols, ANY)\nuse_lemma('L_nat_mono', mols, ANY, ANY)"},
+    loops={
+        'L1': LoopSpec(inv=["atomid == lo(_i) + 1 and len(EV) == lo(_i)", SER_INV[0].format(M='_i'),
+                            "forall(lambda k: implies(k in nodeidx2atomid, 0 <= k[0] and k[0] < _i), TK)"],
+                       modifies=['EV', 'nodeidx2atomid'], locals=dict(nodeidx2atomid=TMap(TTuple(TInt, NodeT), TInt), g_EV=TSeq(AtomEv)),
+                       ghost_pre="g_EV = list(EV)\ng_tab = dict(nodeidx2atomid)",
+                       ghost_end="prove(forall(lambda m: implies(0 <= m and m < _i, block_ok(m))), 'earlier-molecules-untouched')\n"
+                                 "prove(block_ok(_i), 'this-molecule')"),
+        'L1.1': LoopSpec(inv=["atomid == lo(_iL1) + _i + 1 and len(EV) == lo(_iL1) + _i",
+                              "forall(lambda p: implies(0 <= p and p < lo(_iL1), EV[p] == g_EV[p]))",
+                              "forall(lambda k: implies(k in g_tab, k in nodeidx2atomid and nodeidx2atomid[k] == g_tab[k]), TK)",
+                              "forall(lambda p: implies(lo(_iL1) <= p and p < lo(_iL1) + _i, is_atom(EV[p], _iL1, p - lo(_iL1))))",
+                              "forall(lambda q: implies(0 <= q and q < _i, (_iL1, nd(_iL1, q)) in nodeidx2atomid and "
+                              "   nodeidx2atomid[(_iL1, nd(_iL1, q))] == lo(_iL1) + q + 1))",
+                              "forall(lambda k: implies(k in nodeidx2atomid, 0 <= k[0] and k[0] <= _iL1), TK)",
+                              "implies(_i > 0, resname == attr_s(mols[_iL1], nd(_iL1, _i - 1), 'resname') and "
+                              "   resid == attr_i(mols[_iL1], nd(_iL1, _i - 1), 'resid') and chain == attr_s(mols[_iL1], nd(_iL1, _i - 1), 'chain'))"],
+                         modifies=['EV', 'nodeidx2atomid'],
+                         locals=dict(nodeidx2atomid=TMap(TTuple(TInt, NodeT), TInt), resname=TStr, resid=TInt, chain=TStr)),
+    },
+    canary=[("atomid += 1\n        out.append(terline)", "out.append(terline)"),
+            ("nodeidx2atomid[(mol_idx, node_idx)] = atomid", "nodeidx2atomid[(mol_idx, node_idx)] = atomid + 1")],
+)
+serials.spec_env['TK'] = TTuple(TInt, NodeT)
+CONTRACTS.append(serials)
+LEMMAS.extend([L_nat_nonneg, L_nat_mono])
+
+
 def extra_obligations(tier):
     obs = []
 
